@@ -301,9 +301,9 @@ type replayDoc struct {
 }
 
 func run(c *props.Ctx) {
-	depth := 3
+	depth := 4
 	if !c.Quick() {
-		depth = 4
+		depth = 5
 	}
 	c.R.Bounds["depth"] = depth
 	mods := modules()
